@@ -33,7 +33,7 @@ SUMMARIES = {}      # qualname -> summary callable (modular contract used at cal
 INVARIANTS = {}     # (qualname, loop ordinal) -> LoopInv
 
 
-def unit(prop, name, cases=None, sizes=None, functions=(), modes=('unbounded', 'bounded'), tier='quick', budget_ms=20000,
+def unit(prop, name, cases=None, sizes=None, functions=(), modes=('unbounded', 'bounded'), tier='quick', budget_ms=10000,
          thorough_sizes=None, opts=None):
     def deco(fn):
         UNITS.append(dict(prop=prop, name=name, fn=fn, cases=cases or [dict()], sizes=sizes or {}, functions=list(functions),
@@ -141,9 +141,14 @@ class Outcome:
         pc = self.cx.pc if pc_len is None else self.cx.pc[:pc_len]
         return list(self.cx.facts) + list(pc)
 
-    def prove(self, name, goal, pc_len=None, extra_hyps=(), kind='ensures', budget_ms=None):
+    def prove(self, name, goal, pc_len=None, extra_hyps=(), kind='ensures', budget_ms=None, hints=()):
         goal = T.truthy(goal) if not isinstance(goal, bool) else goal
-        self.V.record(self, name, list(self.hyps(pc_len)) + [T.to_bool_term(h) for h in extra_hyps], goal, kind, budget_ms)
+        hs = list(self.hyps(pc_len)) + [T.to_bool_term(h) for h in extra_hyps]
+        for t in hints:
+            t = N(t)
+            if T.is_z3(t):
+                hs.append(t == t)
+        self.V.record(self, name, hs, goal, kind, budget_ms)
 
     def prove_all(self, clauses):
         for nm, g in clauses:
@@ -204,11 +209,27 @@ class Verifier:
         self.lib = Lib()
         self.itp = Interp(self.lib, contracts=dict(SUMMARIES), invariants=INVARIANTS)
         self.paths_seen = 0
+        self.vacuous_paths = 0
+        self.canary_ms = 300
         self.engine_errors = []
         self.assumed = set()
         self.case_tag = ','.join('%s=%s' % (k, _tag(v)) for k, v in sorted(case.items()))
         if sizes:
             self.case_tag += ('|' if self.case_tag else '') + ','.join('%s=%d' % (k, v) for k, v in sorted(sizes.items()))
+
+    @property
+    def np(self):
+        return self.lib.models
+
+    def op(self, sym, a, b=None):
+        import ast as _ast
+        ops = {'+': _ast.Add, '-': _ast.Sub, '*': _ast.Mult, '/': _ast.Div, '**': _ast.Pow, '%': _ast.Mod,
+               '<': _ast.Lt, '<=': _ast.LtE, '>': _ast.Gt, '>=': _ast.GtE, '==': _ast.Eq, '!=': _ast.NotEq, '&': _ast.BitAnd, '|': _ast.BitOr}
+        if sym == 'neg':
+            return self.lib.unop(_ast.USub, a)
+        if sym in ('<', '<=', '>', '>=', '==', '!='):
+            return self.lib.compare(ops[sym], a, b)
+        return self.lib.binop(ops[sym], a, b)
 
     # ------------------------------------------------------------------------------------ declarations
     def size(self, name, lo=0):
@@ -328,6 +349,12 @@ class Verifier:
             if n_paths > max_paths:
                 raise EngineError('path limit exceeded in %s' % qualname)
             if out is not None:
+                # canary: a path whose hypotheses are contradictory proves everything; drop it (vacuity guard)
+                v, _, _, _ = P._solve(out.hyps(), self.canary_ms, self.seed)
+                if v == 'unsat':
+                    self.vacuous_paths += 1
+                    out = None
+            if out is not None:
                 self.paths_seen += 1
                 # loop-invariant obligations and other side conditions are always proved
                 yield out
@@ -353,9 +380,45 @@ class Verifier:
         rec = dict(name=full, clause=name, kind=kind, mode=self.mode, verdict=res['verdict'], backend=res['backend'],
                    time_s=round(res['time_s'], 4), n_hyps=len(hyps), reason=res['reason'], path=out.path, function=out.fn)
         if res['verdict'] == 'refuted':
-            rec['counterexample'] = self.counterexample(out, res['model'], goal)
+            model = self.nice_model(hyps, goal) or res['model']
+            rec['counterexample'] = self.counterexample(out, model, goal)
         self.records.append(rec)
         return rec
+
+    def nice_model(self, hyps, goal):
+        """Model minimisation for replay: re-solve with every declared input restricted to small dyadic values
+        (multiples of 1/4 in [-4, 4], lengths <= 5) so that the counterexample survives float64 arithmetic."""
+        cons = []
+
+        def nice(t, scale=4, bound=4):
+            t = T.to_real(t)
+            return z3.And(t * scale == z3.ToReal(z3.ToInt(t * scale)), t >= -bound, t <= bound)
+        for nm, d in self.inputs.items():
+            if d[0] == 'real':
+                cons.append(nice(d[1], 8, 8))
+            elif d[0] == 'int' :
+                cons.append(z3.And(d[1] >= -6, d[1] <= 6))
+            elif d[0] == 'array':
+                _, shape, dtype, get = d
+                if dtype not in ('float', 'int'):
+                    continue
+                dims = []
+                for s_ in shape:
+                    if isinstance(s_, int):
+                        dims.append(s_)
+                    else:
+                        cons.append(T.to_int_term(s_) <= 5)
+                        dims.append(5)
+                if all(x <= 8 for x in dims):
+                    for ix in np.ndindex(*dims):
+                        cons.append(nice(get(*ix)) if dtype == 'float' else z3.And(get(*ix) >= -4, get(*ix) <= 4))
+        if not cons:
+            return None
+        try:
+            v, _, model, _ = P._solve(list(hyps) + [z3.Not(goal) if not isinstance(goal, bool) else z3.BoolVal(not goal)] + cons, 3000, self.seed)
+        except Exception:
+            return None
+        return model if v == 'sat' else None
 
     # ------------------------------------------------------------------------------ model -> concrete input
     def counterexample(self, out, model, goal):
